@@ -12,6 +12,11 @@ class C09(ProgProp):
                   'user locator x both origins; object identities printed by the driver; SFINAE probe for Locator(); '
                   'non-trivial = every scenario; distinct = distinct (model, cfg, scenario)')
 
+    def compile_failure(self, case, log):
+        if case['cfg']['origin'] == 'create' and 'predicted presence of Locator()' in log:
+            return ['a shell that creates its facilities offers no Locator() accessor: its locator is not available']
+        return []
+
     def gen_scripts(self, rng, case, spec):
         lines = []
         for pump, runtime, extra in itertools.product((0, 1), repeat=3):
